@@ -46,6 +46,44 @@ static Outcome5 run(const Bytes &T0, int limit, const dl::Response &resp, const 
 }
 static std::string fstr(const std::vector<int> &v) { std::string s; for (int x : v) s += x == 1 ? "+" : x == -1 ? "-" : "0"; return s; }
 
+// Retry on the SAME download context, as the documented procedure does after a refused response: a response with a corrupted
+// payload (or one that stops in mid-chunk) is delivered first, then zck_dl_reset() + zck_reset_failed_chunks() + a new request
+// and a well-formed response.  The second response must be accepted and must leave every chunk it covers valid with B's bytes.
+static std::string retry_run(const Bytes &T0, int limit, const gen::ZFile &B, const dl::Style &style, size_t corrupt_pos, bool cut_short, const std::vector<size_t> &cuts1, const std::vector<size_t> &cuts2) {
+    int fd = lib::mkfd(T0, "tgt"); zckCtx *z = zck_create(); std::string out;
+    if (!zck_init_read(z, fd)) { zck_free(&z); close(fd); return ""; }
+    (void)!zck_find_valid_chunks(z); zck_reset_failed_chunks(z);
+    zckDL *d = zck_dl_init(z); zckRange *r = zck_get_missing_range(z, limit);
+    if (r && zck_dl_set_range(d, r) && zck_get_range_count(r) > 0) {
+        char *s1 = zck_get_range_char(z, r); std::string rs1 = s1 ? s1 : ""; free(s1);
+        dl::Server bad; bad.file = B.file; bad.style = style; if (corrupt_pos < bad.file.size()) bad.file[corrupt_pos] ^= 0x5a;
+        dl::Response r1 = bad.respond(rs1);
+        if (r1.status == 206) {
+            if (cut_short && r1.body.size() > 3) r1.body.resize(r1.body.size() * 2 / 3);       // the transfer breaks off in mid-chunk
+            (void)dl::deliver(d, r1, cuts1, zck_write_chunk_cb);
+            // the retry
+            (void)!zck_dl_set_range(d, nullptr); zck_range_free(&r); r = nullptr;
+            (void)!zck_clear_error(z); zck_dl_reset(d); zck_reset_failed_chunks(z);
+            r = zck_get_missing_range(z, limit);
+            if (r && zck_dl_set_range(d, r) && zck_get_range_count(r) > 0) {
+                char *s2 = zck_get_range_char(z, r); std::string rs2 = s2 ? s2 : ""; free(s2);
+                std::vector<dl::Range> rq; dl::parse_ranges(rs2, rq);
+                dl::Server good; good.file = B.file; good.style = style; dl::Response r2 = good.respond(rs2);
+                if (r2.status == 206) {
+                    bool acc = dl::deliver(d, r2, cuts2, zck_write_chunk_cb);
+                    if (!acc) out = std::string("after a refused response and the documented retry (zck_dl_reset, zck_reset_failed_chunks, new request) a well-formed response on the same download context was refused: ") + zck_get_error(z);
+                    Bytes T1 = lib::fd_bytes(fd); size_t i = 0;
+                    for (zckChunk *ch = z->index.first; ch && out.empty(); ch = ch->next, i++) { size_t off = B.off(i), cl = B.clen(i); if (!cl) continue; bool cov = false; for (auto &x : rq) if (off >= x.s && off + cl - 1 <= x.e) cov = true; if (!cov) continue;
+                        if (ch->valid != 1) out = "retry: chunk " + std::to_string(i) + " is covered by the accepted second response but is marked " + std::to_string(ch->valid);
+                        else if (T1.size() < off + cl || memcmp(T1.data() + off, B.file.data() + off, cl) != 0) out = "retry: chunk " + std::to_string(i) + " is marked valid after the second response but does not hold B's bytes"; }
+                }
+            }
+        }
+    }
+    (void)!zck_dl_set_range(d, nullptr); if (r) zck_range_free(&r);
+    zck_dl_free(&d); zck_free(&z); close(fd); return out;
+}
+
 static void prop(Ctx &c) {
     gen::ZFileOpts o; o.max_chunks = 12; o.max_chunk = c.chance(2, 3) ? 24 : 400; o.allow_empty = false; o.allow_dups = c.rarely(4);
     gen::ZParams qb = gen::zparams(c, o); gen::ZFile B = gen::zfile_build(c, qb); size_t n = B.nchunks();
@@ -120,6 +158,13 @@ static void prop(Ctx &c) {
         else { size_t k = c.tier ? 3000 : 400; for (size_t t = 0; t < k; t++) { size_t p = 1 + c.draw(L - 2), q = 1 + c.draw(L - 2); if (p == q) continue; one({std::min(p, q), std::max(p, q)}); } }
         { std::vector<size_t> allc; for (size_t p = 1; p < L; p++) allc.push_back(p); one(allc); }          // 1-byte fragments
         for (int t = 0; t < 6; t++) one(dl::gen_cuts(c, L));                                                  // k-cut samples
+    }
+    // retry history on one download context (a quarter of the cases)
+    if (c.gver >= 2 && c.rarely(4) && !covered.empty()) {
+        size_t vi = covered[c.pick(covered.size())]; size_t pos = B.off(vi) + c.pick(B.clen(vi)); bool cut_short = c.boolean();
+        std::vector<size_t> k1 = dl::gen_cuts(c, L), k2 = dl::gen_cuts(c, L);
+        std::string e = retry_run(T0, limit, B, srv.style, pos, cut_short, k1, k2); runs += 2; c.label(cut_short ? "retry-after-broken-transfer" : "retry-after-corrupt-response");
+        if (!e.empty()) { c.extra_evals = runs; c.fail("retry-refused", e + (cut_short ? " [first response broke off in mid-chunk]" : " [first response had a corrupted payload in chunk " + std::to_string(vi) + "]")); }
     }
     c.desc << " fragmentations=" << runs;
     c.extra_evals = runs; c.extra_distinct = nontriv; if (nontriv) c.nontrivial();
